@@ -276,6 +276,13 @@ def run(rep, tier, rng):
     rep.extra["expected_outcomes"] = kinds
 
 
+def library_soup(rep, tier, rng):
+    """LIBRARY SOUP (checks/pylib.py): a DAG of two to four stateful libraries importing one another through every kind of import
+    set, a program that imports some of them and calls what it sees - judged by an independent reference module system in Python"""
+    from . import pylib
+    pylib.soup_phase(rep, rng, 100 if tier == "quick" else 2000, C, R, as_files=True)
+
+
 def main(tier, seed):
     rep = C.Report(PROP, tier, seed)
     rng = random.Random(seed)
@@ -284,7 +291,8 @@ def main(tier, seed):
                        "configurations x all histories of 3 attempts, 1200 sampled (thorough: all) 3-node configurations x "
                        "histories of 2 attempts; as files under a program directory that is not the working directory, and as "
                        "registered sources; distinct = (graph, history, variant)")
-    ok = C.standard_proof_phase(rep, MODULES, directed_search=lambda r: run(r, tier, rng))
+    ok = C.standard_proof_phase(rep, MODULES, directed_search=lambda r: (run(r, tier, rng), library_soup(r, tier, rng)))
     if ok:
         run(rep, tier, rng)
+        library_soup(rep, tier, rng)
     return rep.finish("cd lean && lake build RuschmProofs.C14 && lake env lean <#print axioms of every theorem in RuschmProofs/C14.lean>")
